@@ -2,6 +2,8 @@ use crate::core::Ctx;
 
 pub mod c01;
 pub mod c02;
+pub mod c05;
+pub mod c06;
 pub mod c07;
 pub mod c08;
 pub mod c13;
@@ -13,6 +15,8 @@ pub fn lookup(prop: &str) -> Option<fn(&Ctx)> {
     Some(match prop {
         "C01" => c01::run,
         "C02" => c02::run,
+        "C05" => c05::run,
+        "C06" => c06::run,
         "C07" => c07::run,
         "C08" => c08::run,
         "C13" => c13::run,
